@@ -17,7 +17,7 @@ ASSUMPTIONS = [
     "case variants are exercised through the stream entry points (HashStreamFile, get_hash_stream, fobj_md5, file_md5)",
 ]
 MONITORS = "digest / passthrough bytes / byte count compared with hashlib on every evaluation"
-REQUIRED_COUNTERS = ["control_heavy_ascii_contents", "long_first_line_texts", "hash_file_over_index_filesystem", "dos2unix_case_variant_checks", "midway_digest_peeks", "streams_with_transient_read_failures", "transient_read_failures_retried", "interleaved_stream_pairs", "short_read_streams", "stream_checks", "fobj_md5_checks", "hash_file_checks", "dos2unix_variant_checks", "memfs_checks"]
+REQUIRED_COUNTERS = ["legacy_stream_counts_checked", "control_heavy_ascii_contents", "long_first_line_texts", "hash_file_over_index_filesystem", "dos2unix_case_variant_checks", "midway_digest_peeks", "streams_with_transient_read_failures", "transient_read_failures_retried", "interleaved_stream_pairs", "short_read_streams", "stream_checks", "fobj_md5_checks", "hash_file_checks", "dos2unix_variant_checks", "memfs_checks"]
 
 PLAIN = ["md5", "sha1", "sha256", "sha512", "blake3", "sha224", "sha384", "md5-sha1", "sha3_256", "blake2b", "sha512_256"]
 VARIANTS = ["MD5", "Md5", "SHA256", "Sha256", "BLAKE3", "Blake3", "SHA1", "sHa512", "MD5-SHA1"]
@@ -220,8 +220,11 @@ def run_shard(ctx):
                         bad("stream-alters-bytes", f"stream over {name} returned bytes != source", case, **sample)
                     if st.hash_value != ref:
                         bad("stream-digest", f"stream digest for {name} != reference ({kind} reads)", case, got=st.hash_value, ref=ref, **sample)
-                    if lname != "md5-dos2unix" and st.total_read != len(data):
-                        bad("stream-count", f"total_read {st.total_read} != {len(data)}", case, **sample)
+                    if st.total_read != len(data):
+                        # the count is of the bytes read and handed on, also where the digest is fed a normalised form of them
+                        bad("stream-count" + ("/legacy" if lname == "md5-dos2unix" else ""), f"total_read {st.total_read} != {len(data)} bytes read from a {name} stream", case, **sample)
+                    if lname == "md5-dos2unix":
+                        res.count("legacy_stream_counts_checked")
                 elif entry == "fobj_md5":
                     cs = sizes[0] if sizes[0] > 0 else 2**20
                     if lname == "md5-dos2unix":
